@@ -148,8 +148,12 @@ class RealCluster:
             svenv.CLOCK.now = now
             SupervisorListener.read_publication(self.lst(i), msg)
             self.flush(i)
-        elif kind == 'AHandshake':
-            _, i, now = a
+        elif kind in ('AHandshake', 'AHandshakeLate'):
+            if kind == 'AHandshake':
+                _, i, now = a
+                ts = now
+            else:
+                _, i, ts, now = a
             if not self.pending[i] or not self.up[i]:
                 return
             j = self.pending[i].pop(0)
@@ -158,8 +162,13 @@ class RealCluster:
             if proxy:
                 from supvisors.internal_com.supervisorproxy import InternalEventHeaders
                 from supvisors.ttypes import RequestHeaders
-                proxy.process_event((InternalEventHeaders.REQUEST,
-                                     (ident(i), (RequestHeaders.CHECK_INSTANCE.value, None))))
+                # check_instance reads the clock once when it starts; a slow handshake started at ts
+                svenv.CLOCK.once = [ts] if ts != now else []
+                try:
+                    proxy.process_event((InternalEventHeaders.REQUEST,
+                                         (ident(i), (RequestHeaders.CHECK_INSTANCE.value, None))))
+                finally:
+                    svenv.CLOCK.once = []
         elif kind == 'ANotify':
             _, i, now, orcs = a
             if not self.inbox[i] or not self.up[i]:
@@ -275,7 +284,11 @@ class ClusterSuite(Suite):
                     a = ('ATick', ch[1], now, self.node_suite.gen_orcs(rng, busy_p))
                 elif ch[0] == 'hs':
                     now += 1     # the proxy thread reads the clock after the main thread has entered CHECKING
-                    a = ('AHandshake', ch[1], now)
+                    if rng.random() < 0.25:
+                        # a slow handshake: it started some time ago (possibly before a new CHECKING period)
+                        a = ('AHandshakeLate', ch[1], now - rng.choice([1, 4, 8, 20, 45]), now)
+                    else:
+                        a = ('AHandshake', ch[1], now)
                 elif ch[0] == 'notify':
                     now += rng.randint(0, 1)
                     a = ('ANotify', ch[1], now, self.node_suite.gen_orcs(rng, busy_p))
@@ -370,6 +383,8 @@ class ClusterSuite(Suite):
                 eacts.append(app('ADeliver', a[1], a[2], a[3], ns.emit_orcs(a[4], picks)))
             elif kind == 'AHandshake':
                 eacts.append(app('AHandshake', a[1], a[2]))
+            elif kind == 'AHandshakeLate':
+                eacts.append(app('AHandshakeLate', a[1], a[2], a[3]))
             elif kind == 'ANotify':
                 eacts.append(app('ANotify', a[1], a[2], ns.emit_orcs(a[3], picks)))
             elif kind == 'ACrash':
